@@ -191,6 +191,23 @@ def run_c17(tier, seed):
                 args = [variant, "return 1", "1", "@0"] + ["a%d" % x for x in range(argc - 3)]
             reqs = [req("cmd", ["A"], args)] + ([] if variant.lower() == "quit" else [wit])
             scs.append(c17_scenario("c17-%s-%d" % (variant, argc), reqs))
+        # names with bytes outside ASCII: letters that a Unicode-aware case mapping folds onto ASCII ones (U+212A -> k,
+        # U+0130 -> i, U+017F -> s), names that are not valid UTF-8, supported names with a stray high byte; none is in
+        # the table, and the request behind each of them in the same write must be served as usual
+        odd = []
+        for name in sorted(table):
+            for ch, rep in (("k", "\u212a"), ("i", "\u0130"), ("s", "\u017f")):
+                if ch in name:
+                    odd.append(name.upper().replace(ch.upper(), rep, 1))
+                    odd.append(name.replace(ch, rep, 1))
+        if q:
+            rng.shuffle(odd)
+            odd = odd[:40]
+        odd += ["hex:fffefd", "hex:474554ff", "hex:ff474554", "hex:c3a9", "hex:e284aa", "hex:50c4b04e47", "hex:80", "G\u00c9T", "hex:67657400"]
+        for k, name in enumerate(odd):
+            for argc in (0, 1, 2):
+                args = [name] + (["@0"] if argc >= 1 else []) + ["a%d" % x for x in range(max(0, argc - 1))]
+                scs.append(c17_scenario("c17-odd-%d-%d" % (k, argc), [req("cmd", ["A"], args), wit, req("ping"), wit]))
         # sizes around the limit: SET with a padded value, alone and at each position of a 4-request pipeline in one write
         small = req("cmd", ["A"], ["GET", "@0"])
         base = len(gen_core._cmd("SET", "{t2}c1.1.0", ""))  # same length for every index below 10
